@@ -151,10 +151,17 @@ def plan(rng, tier):
     rng.shuffle(order)
     return {"cfg": cfg, "base": base, "txns": txns, "order": order,
             "commit_every": rng.choice([0, 0, 1, 3]),
-            "evict": rng.random() < 0.3}
+            "evict": rng.random() < 0.3,
+            # bit i: client i is "cold" -- nothing but its own operations
+            # ever touches its nodes (the monitor looks at a shadow)
+            "cold": rng.randrange(8) if rng.random() < 0.6 else 0}
 
 
 def simplify(plan):
+    if plan.get("cold"):
+        p = copy.deepcopy(plan)
+        p["cold"] = 0
+        yield p
     if plan.get("evict"):
         p = copy.deepcopy(plan)
         p["evict"] = False
@@ -263,13 +270,22 @@ def _struct_class(trans, concrete):
     return tuple(sorted(cls))
 
 
-def _run_txn(conn, tree, concrete, dom, cfg, ctx, who):
-    """apply the ops with the read-dependency monitor; -> transition set"""
+def _run_txn(conn, tree, concrete, dom, cfg, ctx, who, shadow=None):
+    """apply the ops with the read-dependency monitor; -> transition set.
+    With a shadow (a second connection at the same snapshot that mirrors the
+    operations and is never committed) everything the monitor has to look at
+    -- listings, descent paths, shapes -- is read from the shadow, so that
+    the client's own nodes stay ghosts until its operations reach them (a
+    client whose very first access is a write)."""
     impl, kind = cfg["impl"], cfg["kind"]
     mapping = is_mapping(kind)
     trans = set()
     prev = None
     small = dom.nkeys <= 64
+    client_tree = tree
+    if shadow is not None:
+        tree = shadow       # the monitor's view
+        ctx.probe("cold-client")
     for op in concrete:
         name = op[0]
         before = ops.listing(tree, mapping) if small else None
@@ -281,8 +297,10 @@ def _run_txn(conn, tree, concrete, dom, cfg, ctx, who):
             except Exception:
                 path = None
         mark = len(conn.log)
-        got = ops.apply(tree, op, dom, impl, kind)
+        got = ops.apply(client_tree, op, dom, impl, kind)
         entries = conn.log[mark:]
+        if shadow is not None:
+            ops.apply(shadow, op, dom, impl, kind)
         ctx.ev(who, name, got[0], got[1] if got[0] == "exc" else None)
         # declared so far in this transaction (an object that is already
         # registered as changed is not declared again)
@@ -400,12 +418,16 @@ def _one_order(plan, order, ctx, tag):
         conn = SimConnection(st, impl)
         tree = conn.get(oid)
         concrete = _resolve_symbolic(txn, base_walk, dom, mapping, B)
-        clients.append({"conn": conn, "tree": tree, "ops": concrete})
+        shadow = None
+        if (plan.get("cold", 0) >> i) & 1:
+            shadow = SimConnection(st, impl).get(oid)
+        clients.append({"conn": conn, "tree": tree, "ops": concrete,
+                        "shadow": shadow})
     for i, cl in enumerate(clients):
         if plan.get("evict") and i % 2 == 1:
             cl["conn"].sweep("minimize")
         cl["trans"] = _run_txn(cl["conn"], cl["tree"], cl["ops"], dom, cfg,
-                               ctx, "%s-t%d" % (tag, i))
+                               ctx, "%s-t%d" % (tag, i), cl["shadow"])
         m = ops.Model(dom, kind)
         m.d = dict(B)
         for op in cl["ops"]:
